@@ -178,6 +178,9 @@ fn err_cat(e: &Error) -> String {
         Error::StatusLineProtocol(_) => "StatusLineProtocol".into(),
         Error::StringFormat(_) => "StringFormat".into(),
         Error::Trailer(h) => format!("Trailer.{}", herr_cat(h)),
+        // a variant this harness does not know (the crate's error type has grown): keep building, report it
+        #[allow(unreachable_patterns)]
+        other => format!("Unknown.{}", format!("{:?}", other).split(|c: char| !c.is_alphanumeric()).next().unwrap_or("")),
     }
 }
 
